@@ -121,6 +121,19 @@ CHECKS = {
              "(substitution, comp_mpoly) and 'staged = at once' are modelled with the proved C01 operations and compared "
              "with /repo on every run, and checked as relations on /repo, but not yet stated as theorems; independence "
              "of the numeric carrier type (int / numpy scalar / float) is checked on /repo only (the model erases the carrier)."),
+    "C08": dict(
+        technique="Coq proof by evaluation over regenerated finite tables (registries, reduce/accumulate maps, numpy's "
+                  "overridable callables) lifted with allP; bridge over the dispatch control flow of baseclass.py; "
+                  "exhaustive calls of every registered and unregistered callable on /repo",
+        text="Theorems (Props/P_C08.v), over the registries and the universe of overridable numpy callables of this tree: "
+             "every registered function/ufunc is forwarded to numpoly's function of the same name; ufunc.reduce/accumulate "
+             "reach the function registered for the mapped numpy function; every unregistered function, every other ufunc "
+             "method and every unmapped reduce/accumulate yields FeatureNotSupported, never KeyError or a value.",
+        note="Trusted: Coq kernel+VM; translator dispatch_tr.py (registries by introspection of the imported /repo, control "
+             "flow of __array_ufunc__/__array_function__ by ast, partly textual); numpy.testing.overrides as the universe. "
+             "That numpy consults the protocol at all, and that equal targets give equal results, is observed on every run: "
+             "all registered callables through numpy/numpoly/method spellings, all ~240 unregistered functions and ~100 "
+             "ufuncs and all ufunc methods are actually called with a polynomial (inconclusive templates are listed in the evidence)."),
 }
 
 
